@@ -137,7 +137,6 @@ fn g_choice(r: &mut Rng) -> Choice {
 }
 
 pub trait Probe: Sync {
-    fn name(&self) -> &'static str;
     fn roundtrip(&self, rng: &mut Rng, out: &mut CaseOut);
     fn chunk(&self, rng: &mut Rng, out: &mut CaseOut, exhaustive: bool);
 }
@@ -160,10 +159,6 @@ where
     T: RecognizerReadable + StructuralWritable + PartialEq + Debug + 'static,
     G: Fn(&mut Rng) -> T + Sync,
 {
-    fn name(&self) -> &'static str {
-        self.name
-    }
-
     fn roundtrip(&self, rng: &mut Rng, out: &mut CaseOut) {
         let v = (self.gen)(rng);
         out.sig(&self.name);
